@@ -4,7 +4,7 @@
    the same steps"): the reference model is this machine and the correspondence over histories is
    what ties it to interface.py; the theorems below say what the machine guarantees. *)
 From GV Require Import Base.Prelude Base.PyStr Model.Bins Model.DB Model.Parser Model.Import Model.GtfSpec Model.Machine
-  Proofs.C04Proofs Proofs.C10Proofs.
+  Proofs.C04Proofs Proofs.C10Proofs Proofs.C10Bridge.
 Open Scope Z_scope.
 
 Section P.
@@ -108,3 +108,23 @@ Print Assumptions C10_ids_unique.
 Print Assumptions C10_continues_numbering.
 Print Assumptions C10_counters_monotone.
 Print Assumptions C10_step_counters_up.
+
+(* "update adds or merges features and their first- and second-level relations": a successful update() step of the machine IS
+   the importer (create_db's own code path) run on the file's tables with the open object's live counters; the file then holds
+   the importer's tables and the persisted counters, the object the new counters, the backup the pre-operation content.  So
+   everything proved about import_gff / import_gtf - keys unique (C04_unique), the strategies (the C05 theorems), Parent links exact
+   (C05_parent_links_exact), level-2 closure over histories (C02_history_closed), bins consistent (C12_import_gff_bins, C12_import_gtf_bins), GTF
+   inference (the C03 theorems) - holds of update steps inside arbitrary machine histories *)
+Theorem C10_update_is_import_gff : forall call s fs strat spec w backup st'', fs <> [] ->
+  import_gff call strat [] spec fs (with_auto (m_disk s) (m_mem s)) = Ok st'' ->
+  do_update call KGff s fs strat spec w None backup =
+  (mkM (with_auto st'' (persist (s_auto (m_disk s)) (s_auto st''))) (s_auto st'') (if backup then Some (m_disk s) else m_bak s), Ok tt).
+Proof. exact l_update_is_import_gff. Qed.
+Print Assumptions C10_update_is_import_gff.
+
+Theorem C10_update_is_import_gtf : forall call s fs strat spec w backup st'', fs <> [] ->
+  import_gtf call gtf_default strat [] spec fs (with_auto (m_disk s) (m_mem s)) = Ok st'' ->
+  do_update call KGtf s fs strat spec w None backup =
+  (mkM (with_auto st'' (persist (s_auto (m_disk s)) (s_auto st''))) (s_auto st'') (if backup then Some (m_disk s) else m_bak s), Ok tt).
+Proof. exact l_update_is_import_gtf. Qed.
+Print Assumptions C10_update_is_import_gtf.
